@@ -81,9 +81,10 @@ class Sub:
     """view of a Ctx that files everything a borrowed rule pack reports under one rule of the borrowing pack
     (e.g. C10.R5 = the reset obligations of C06): same facts, same caches, keys `<pid>.<rule>:<fn>:<orig rule>/<site>`"""
 
-    def __init__(self, ctx, rule, origin, only=None):
+    def __init__(self, ctx, rule, origin, only=None, match=None):
         # only: the rules of the borrowed pack that bear on the borrowing property (None = all of them)
-        self._ctx, self._rule, self._origin, self._only = ctx, rule, origin, only
+        # match: optional predicate on (rule, function-or-site text) selecting the instances that bear on it
+        self._ctx, self._rule, self._origin, self._only, self._match = ctx, rule, origin, only, match
 
     def __getattr__(self, name):
         return getattr(self._ctx, name)
@@ -92,19 +93,19 @@ class Sub:
         return self._only is None or rule.split('.')[0] in self._only
 
     def ok(self, rule, site, how=''):
-        if self._wanted(rule):
+        if self._wanted(rule) and (self._match is None or self._match(rule, site)):
             self._ctx.ok(self._rule, '[%s.%s] %s' % (self._origin, rule, site), how)
 
     def violation(self, rule, fn, site, msg, span=None, details=None):
-        if self._wanted(rule):
+        if self._wanted(rule) and (self._match is None or fn in ('<floor>', '<anchor>') or self._match(rule, fn)):
             self._ctx.violation(self._rule, fn, '%s.%s/%s' % (self._origin, rule, site), msg, span, details)
 
     def floor(self, rule, found, floor, what):
-        if self._wanted(rule):
+        if self._wanted(rule) and self._match is None:
             self._ctx.floor('%s.%s.%s' % (self._rule, self._origin, rule), found, floor, what)
 
     def anchor_missing(self, rule, what):
-        if self._wanted(rule):
+        if self._wanted(rule) and (self._match is None or self._match(rule, what)):
             self._ctx.anchor_missing(self._rule, what)
 
 
